@@ -59,7 +59,24 @@ def run(res, tier, build_ok):
             kind = rng.choice(["int", "int", "str", "bool", "dict", "opcode"])
             ks = rng.sample(names, rng.randint(1, 5))
             d = {k: value(kind, i) for i, k in enumerate(ks)}
-            e = Enum(d) if rng.random() < 0.6 else Enum(**d)
+            if j > 0 and rng.random() < 0.35:
+                # an enumeration built from a mapping equal to an earlier one's (they must still be independent)
+                kind, d = kinds[0], dict(first_init)
+            how = rng.choice(["dict", "dict", "kwargs", "opcode", "opcode"])
+            if how == "opcode" and rng.random() < 0.3 and kind == "int":
+                d = {} if j == 0 or rng.random() < 0.5 else d
+            if not d:
+                how = "opcode"      # the empty mapping is the common case for operation codes without service actions
+            res.count("enumeration built via " + how)
+            if how == "dict":
+                e = Enum(d)
+            elif how == "kwargs":
+                e = Enum(**d)
+            else:
+                # the service-action enumeration of an operation code object (what the opcode tables are made of)
+                e = OpCode("OPC%d" % j, 0xA3, dict(d)).serviceaction
+            if j == 0:
+                first_init = dict(d)
             enums.append(e)
             oracles.append(dict(d))
             kinds.append(kind)
